@@ -209,7 +209,8 @@ where
             Action::OscPut => {
                 #[cfg(feature = "core")]
                 {
-                    if self.osc_raw.is_full() {
+                    // Param separators aren't stored, so they are still processed when full
+                    if self.osc_raw.is_full() && byte != b';' {
                         return;
                     }
                 }
